@@ -79,7 +79,7 @@ def build_mm_styled(mm, style):
     for f in mm.feats:
         if f.ref:
             ef = E.EReference(f.name, classes[f.typ[1]], upper=-1 if f.many else 1, ordered=f.ordered,
-                              unique=f.unique, containment=f.cont)
+                              unique=f.unique, containment=f.cont, transient=getattr(f, 'transient', False))
         else:
             ef = E.EAttribute(f.name, getattr(E, f.typ[1]), upper=-1 if f.many else 1, ordered=f.ordered, unique=f.unique)
         feats.append(ef)
@@ -386,6 +386,11 @@ def history_case(ctx, h, nops, tmp, model_in, expect):
     ctx.traces += 1
     ctx.nontriv(('hist', h))
     # (c) documents written by one side are loaded by the other into an isomorphic model
+    if any(getattr(f, 'transient', False) for f in mm.feats):
+        # objects under a transient containment are not written, references to them dangle in any document: not a
+        # matter of static vs dynamic (the in-memory halves above cover these metamodels)
+        ctx.count('documents/skipped-transient-containment')
+        return
     for fmt in ('xmi', 'json'):
         try:
             before = models.canon([o for o in w.objs if o.eContainer() is None])
